@@ -41,6 +41,8 @@ pub enum T {
     /// two clones of the service built from `t` (the combinator's own `Clone` where it has one):
     /// readiness is asked through one, requests are sent through the other
     Split(Box<T>),
+    /// `&mut S`
+    RefMut(Box<T>),
 }
 
 #[derive(Clone, Debug, Serialize, Deserialize, PartialEq)]
@@ -57,14 +59,16 @@ pub enum F {
     MapConfig { id: usize, f: Aff, t: Box<F> },
     UnitConfig { c0: u32, t: Box<F> },
     ApplyFn { id: usize, mode: ApplyMode, f: Aff, t: Box<F> },
-    /// apply(transform, factory); `item` is the transform's script id
-    Transform { item: usize, pre: Aff, t: Box<F> },
+    /// apply(transform, factory); `item` is the transform's script id; `wrap`: the transform is
+    /// passed as is (0), as Rc<T> (1) or as Arc<T> (2)
+    Transform { item: usize, pre: Aff, t: Box<F>, #[serde(default)] wrap: u8 },
     /// apply_cfg(service, f): f(cfg, &srv) -> future of PreSvc{srv, x -> x + cfg}
     ApplyCfg { item: usize, s: Box<T> },
     /// apply_cfg_factory(FixCfg(factory, c0), f)
     ApplyCfgFactory { item: usize, c0: u32, t: Box<F> },
     BoxFactory(Box<F>),
     Rc(Box<F>),
+    Arc(Box<F>),
 }
 
 pub struct Ids {
@@ -87,7 +91,7 @@ pub fn assign_t(t: &mut T, ids: &mut Ids) {
             ids.node += 1;
             assign_t(t, ids);
         }
-        T::BoxService(t) | T::RcService(t) | T::Rc(t) | T::Boxed(t) | T::RefCell(t) | T::Ref(t) | T::Split(t) | T::Pre { t, .. } => assign_t(t, ids),
+        T::BoxService(t) | T::RcService(t) | T::Rc(t) | T::Boxed(t) | T::RefCell(t) | T::Ref(t) | T::Split(t) | T::RefMut(t) | T::Pre { t, .. } => assign_t(t, ids),
     }
 }
 
@@ -106,7 +110,7 @@ pub fn assign_f(f: &mut F, ids: &mut Ids) {
             ids.node += 1;
             assign_f(t, ids);
         }
-        F::UnitConfig { t, .. } | F::BoxFactory(t) | F::Rc(t) => assign_f(t, ids),
+        F::UnitConfig { t, .. } | F::BoxFactory(t) | F::Rc(t) | F::Arc(t) => assign_f(t, ids),
         F::Transform { item, t, .. } | F::ApplyCfgFactory { item, t, .. } => {
             // inner first so that service leaves keep DFS order; the item id comes from the leaf space
             assign_f(t, ids);
@@ -220,6 +224,10 @@ pub fn build_t(t: &T, w: &W) -> H {
             }
             other => split(build_t(other, w)),
         },
+        T::RefMut(t) => {
+            let leaked: &'static mut H = Box::leak(Box::new(build_t(t, w)));
+            erase(leaked)
+        }
         T::Ref(t) => {
             let leaked: &'static H = Box::leak(Box::new(build_t(t, w)));
             erase(leaked)
@@ -279,7 +287,16 @@ pub fn build_f(f: &F, w: &W) -> HF {
         }
         F::UnitConfig { c0, t } => erase_fac(unit_config::<_, _, u32, u32>(FixCfg(build_f(t, w), *c0))),
         F::ApplyFn { id, mode, f, t } => erase_fac(apply_fn_factory(build_f(t, w), apply_closure(w, *id, *mode, *f))),
-        F::Transform { item, pre, t } => erase_fac(apply(Tr { item: *item, pre: *pre, w: w.clone() }, build_f(t, w))),
+        F::Transform { item, pre, t, wrap } => {
+            let tr = Tr { item: *item, pre: *pre, w: w.clone() };
+            // (TransformExt::map_init_err cannot be reached: its blanket impl asks for
+            // `T: Transform<T, Req>`, a transform of itself)
+            match wrap % 3 {
+                0 => erase_fac(apply(tr, build_f(t, w))),
+                1 => erase_fac(apply(Rc::new(tr), build_f(t, w))),
+                _ => erase_fac(apply(std::sync::Arc::new(tr), build_f(t, w))),
+            }
+        }
         F::ApplyCfg { item, s } => erase_fac(apply_cfg(build_t(s, w), cfg_closure(w, *item, vec![]))),
         F::ApplyCfgFactory { item, c0, t } => {
             let deps = ready_deps(&svc_of(t)).into_iter().map(|d| d.0).collect();
@@ -287,6 +304,7 @@ pub fn build_f(f: &F, w: &W) -> HF {
         }
         F::BoxFactory(t) => erase_fac(boxed::factory(build_f(t, w))),
         F::Rc(t) => erase_fac(Rc::new(build_f(t, w))),
+        F::Arc(t) => erase_fac(std::sync::Arc::new(build_f(t, w))),
     }
 }
 
@@ -299,7 +317,7 @@ pub fn svc_of(f: &F) -> T {
         F::AndThen(a, b) => T::AndThen(Box::new(svc_of(a)), Box::new(svc_of(b))),
         F::Map { id, f, t } => T::Map { id: *id, f: *f, t: Box::new(svc_of(t)) },
         F::MapErr { id, f, t } => T::MapErr { id: *id, f: *f, t: Box::new(svc_of(t)) },
-        F::MapInitErr { t, .. } | F::MapConfig { t, .. } | F::UnitConfig { t, .. } | F::BoxFactory(t) | F::Rc(t) => svc_of(t),
+        F::MapInitErr { t, .. } | F::MapConfig { t, .. } | F::UnitConfig { t, .. } | F::BoxFactory(t) | F::Rc(t) | F::Arc(t) => svc_of(t),
         F::ApplyFn { id, mode, f, t } => T::ApplyFn { id: *id, mode: *mode, f: *f, t: Box::new(svc_of(t)) },
         F::Transform { pre, t, .. } => T::Pre { f: *pre, t: Box::new(svc_of(t)) },
         // the pre-map depends on the config: filled in by `svc_of_cfg`
@@ -315,7 +333,7 @@ pub fn svc_of_cfg(f: &F, cfg: u32) -> T {
         F::AndThen(a, b) => T::AndThen(Box::new(svc_of_cfg(a, cfg)), Box::new(svc_of_cfg(b, cfg))),
         F::Map { id, f, t } => T::Map { id: *id, f: *f, t: Box::new(svc_of_cfg(t, cfg)) },
         F::MapErr { id, f, t } => T::MapErr { id: *id, f: *f, t: Box::new(svc_of_cfg(t, cfg)) },
-        F::MapInitErr { t, .. } | F::BoxFactory(t) | F::Rc(t) => svc_of_cfg(t, cfg),
+        F::MapInitErr { t, .. } | F::BoxFactory(t) | F::Rc(t) | F::Arc(t) => svc_of_cfg(t, cfg),
         F::MapConfig { f, t, .. } => svc_of_cfg(t, f.ap(cfg)),
         F::UnitConfig { c0, t } => svc_of_cfg(t, *c0),
         F::ApplyFn { id, mode, f, t } => T::ApplyFn { id: *id, mode: *mode, f: *f, t: Box::new(svc_of_cfg(t, cfg)) },
@@ -344,7 +362,7 @@ pub fn init_items(f: &F, cfg: u32, chain: &[(usize, Aff)], out: &mut Vec<InitIte
             init_items(a, cfg, chain, out);
             init_items(b, cfg, chain, out);
         }
-        F::Map { t, .. } | F::MapErr { t, .. } | F::ApplyFn { t, .. } | F::BoxFactory(t) | F::Rc(t) => init_items(t, cfg, chain, out),
+        F::Map { t, .. } | F::MapErr { t, .. } | F::ApplyFn { t, .. } | F::BoxFactory(t) | F::Rc(t) | F::Arc(t) => init_items(t, cfg, chain, out),
         F::MapInitErr { id, f, t } => {
             let mut c = vec![(*id, *f)];
             c.extend_from_slice(chain);
@@ -358,8 +376,9 @@ pub fn init_items(f: &F, cfg: u32, chain: &[(usize, Aff)], out: &mut Vec<InitIte
         }
         F::MapConfig { f, t, .. } => init_items(t, f.ap(cfg), chain, out),
         F::UnitConfig { c0, t } => init_items(t, *c0, chain, out),
-        F::Transform { item, t, .. } => {
+        F::Transform { item, t, wrap, .. } => {
             init_items(t, cfg, chain, out);
+            let _ = wrap;
             out.push(InitItem { item: *item, cfg: None, chain: chain.to_vec(), kind: "transform" });
         }
         F::ApplyCfg { item, .. } => out.push(InitItem { item: *item, cfg: Some(cfg), chain: chain.to_vec(), kind: "cfgfn" }),
@@ -387,7 +406,7 @@ pub fn ready_deps(t: &T) -> Vec<(usize, Vec<(usize, Aff)>)> {
                 (l, c)
             })
             .collect(),
-        T::Map { t, .. } | T::ApplyFn { t, .. } | T::BoxService(t) | T::RcService(t) | T::Rc(t) | T::Boxed(t) | T::RefCell(t) | T::Ref(t) | T::Split(t) | T::Pre { t, .. } => ready_deps(t),
+        T::Map { t, .. } | T::ApplyFn { t, .. } | T::BoxService(t) | T::RcService(t) | T::Rc(t) | T::Boxed(t) | T::RefCell(t) | T::Ref(t) | T::Split(t) | T::RefMut(t) | T::Pre { t, .. } => ready_deps(t),
     }
 }
 
@@ -441,7 +460,7 @@ pub fn eval(t: &T, req: u32, scripts: &[LeafScript], calls: &mut Vec<usize>, log
                 ApplyMode::PostMap => eval(t, req, scripts, calls, log).map(|v| f.ap(v)),
             }
         }
-        T::BoxService(t) | T::RcService(t) | T::Rc(t) | T::Boxed(t) | T::RefCell(t) | T::Ref(t) | T::Split(t) => eval(t, req, scripts, calls, log),
+        T::BoxService(t) | T::RcService(t) | T::Rc(t) | T::Boxed(t) | T::RefCell(t) | T::Ref(t) | T::Split(t) | T::RefMut(t) => eval(t, req, scripts, calls, log),
         T::Pre { f, t } => eval(t, f.ap(req), scripts, calls, log),
     }
 }
@@ -450,7 +469,7 @@ pub fn depth_t(t: &T) -> usize {
     match t {
         T::Leaf { .. } | T::FnLeaf { .. } => 0,
         T::AndThen(a, b) => 1 + depth_t(a).max(depth_t(b)),
-        T::Map { t, .. } | T::MapErr { t, .. } | T::ApplyFn { t, .. } | T::BoxService(t) | T::RcService(t) | T::Rc(t) | T::Boxed(t) | T::RefCell(t) | T::Ref(t) | T::Split(t) | T::Pre { t, .. } => 1 + depth_t(t),
+        T::Map { t, .. } | T::MapErr { t, .. } | T::ApplyFn { t, .. } | T::BoxService(t) | T::RcService(t) | T::Rc(t) | T::Boxed(t) | T::RefCell(t) | T::Ref(t) | T::Split(t) | T::RefMut(t) | T::Pre { t, .. } => 1 + depth_t(t),
     }
 }
 
@@ -458,7 +477,7 @@ pub fn has_and_then_t(t: &T) -> bool {
     match t {
         T::Leaf { .. } | T::FnLeaf { .. } => false,
         T::AndThen(..) => true,
-        T::Map { t, .. } | T::MapErr { t, .. } | T::ApplyFn { t, .. } | T::BoxService(t) | T::RcService(t) | T::Rc(t) | T::Boxed(t) | T::RefCell(t) | T::Ref(t) | T::Split(t) | T::Pre { t, .. } => has_and_then_t(t),
+        T::Map { t, .. } | T::MapErr { t, .. } | T::ApplyFn { t, .. } | T::BoxService(t) | T::RcService(t) | T::Rc(t) | T::Boxed(t) | T::RefCell(t) | T::Ref(t) | T::Split(t) | T::RefMut(t) | T::Pre { t, .. } => has_and_then_t(t),
     }
 }
 
@@ -466,7 +485,7 @@ pub fn count_leaves_t(t: &T) -> usize {
     match t {
         T::Leaf { .. } | T::FnLeaf { .. } => 1,
         T::AndThen(a, b) => count_leaves_t(a) + count_leaves_t(b),
-        T::Map { t, .. } | T::MapErr { t, .. } | T::ApplyFn { t, .. } | T::BoxService(t) | T::RcService(t) | T::Rc(t) | T::Boxed(t) | T::RefCell(t) | T::Ref(t) | T::Split(t) | T::Pre { t, .. } => count_leaves_t(t),
+        T::Map { t, .. } | T::MapErr { t, .. } | T::ApplyFn { t, .. } | T::BoxService(t) | T::RcService(t) | T::Rc(t) | T::Boxed(t) | T::RefCell(t) | T::Ref(t) | T::Split(t) | T::RefMut(t) | T::Pre { t, .. } => count_leaves_t(t),
     }
 }
 
@@ -476,7 +495,7 @@ pub fn depth_f(f: &F) -> usize {
         F::AndThen(a, b) => 1 + depth_f(a).max(depth_f(b)),
         F::ApplyCfg { s, .. } => 1 + depth_t(s),
         F::Map { t, .. } | F::MapErr { t, .. } | F::MapInitErr { t, .. } | F::MapConfig { t, .. } | F::UnitConfig { t, .. } | F::ApplyFn { t, .. } | F::Transform { t, .. }
-        | F::ApplyCfgFactory { t, .. } | F::BoxFactory(t) | F::Rc(t) => 1 + depth_f(t),
+        | F::ApplyCfgFactory { t, .. } | F::BoxFactory(t) | F::Rc(t) | F::Arc(t) => 1 + depth_f(t),
     }
 }
 
@@ -484,7 +503,7 @@ pub fn is_chain_f(f: &F) -> bool {
     match f {
         F::Leaf { .. } | F::FnCfg { .. } | F::Fn { .. } => false,
         F::AndThen(..) | F::Transform { .. } | F::ApplyCfgFactory { .. } | F::ApplyCfg { .. } => true,
-        F::Map { t, .. } | F::MapErr { t, .. } | F::MapInitErr { t, .. } | F::MapConfig { t, .. } | F::UnitConfig { t, .. } | F::ApplyFn { t, .. } | F::BoxFactory(t) | F::Rc(t) => is_chain_f(t),
+        F::Map { t, .. } | F::MapErr { t, .. } | F::MapInitErr { t, .. } | F::MapConfig { t, .. } | F::UnitConfig { t, .. } | F::ApplyFn { t, .. } | F::BoxFactory(t) | F::Rc(t) | F::Arc(t) => is_chain_f(t),
     }
 }
 
@@ -493,6 +512,6 @@ pub fn has_transform_f(f: &F) -> bool {
         F::Leaf { .. } | F::FnCfg { .. } | F::Fn { .. } | F::ApplyCfg { .. } => false,
         F::Transform { .. } => true,
         F::AndThen(a, b) => has_transform_f(a) || has_transform_f(b),
-        F::Map { t, .. } | F::MapErr { t, .. } | F::MapInitErr { t, .. } | F::MapConfig { t, .. } | F::UnitConfig { t, .. } | F::ApplyFn { t, .. } | F::BoxFactory(t) | F::Rc(t) | F::ApplyCfgFactory { t, .. } => has_transform_f(t),
+        F::Map { t, .. } | F::MapErr { t, .. } | F::MapInitErr { t, .. } | F::MapConfig { t, .. } | F::UnitConfig { t, .. } | F::ApplyFn { t, .. } | F::BoxFactory(t) | F::Rc(t) | F::Arc(t) | F::ApplyCfgFactory { t, .. } => has_transform_f(t),
     }
 }
